@@ -157,14 +157,17 @@ def gen(ctx, todo_cells):
                     out.append({'delay': delay, 'hold': 90, 'ap': '1.1,2.1', 'pre': pre, 'steps': [(s, e, k)], 'from': st})
     # 3. message-driven, through handle_msg and (black box) through tick over the TCP stream
     msgs = {'open': None, 'keepalive': KEEPALIVE, 'update': UPDATE, 'notification': NOTIF}
+    notifs = {'n2.1': hdr(23, 3) + bytes([2, 1, 0, 4]), 'n2.2': hdr(21, 3) + bytes([2, 2]), 'n4.0': hdr(21, 3) + bytes([4, 0]),
+              'n6.4d': hdr(24, 3) + bytes([6, 4, 1, 2, 3])}
     for st, pre in prefixes.items():
         for mk in ('open', 'keepalive', 'update', 'notification'):
             for via in ('m', 't'):
                 if via == 't' and st == 'Connect':
                     continue      # no connection to read from
                 for delay in (0, 1):
-                    for ok in (['ok', 'ok2', 'bad', 'ap-err', 'ok16'] if mk == 'open' else [None]):
-                        b = opens[ok] if mk == 'open' else msgs[mk]
+                    variants = ['ok', 'ok2', 'bad', 'ap-err', 'ok16'] if mk == 'open' else ([None, 'n2.1', 'n2.2', 'n4.0', 'n6.4d'] if mk == 'notification' else [None])
+                    for ok in variants:
+                        b = opens[ok] if mk == 'open' else (notifs[ok] if ok else msgs[mk])
                         out.append({'delay': delay, 'hold': rng.choice([90, 3, 0]), 'ap': '1.1,2.1', 'pre': pre,
                                     'steps': [('%s:%s' % (via, b.hex()), 'msg:' + mk, ok)], 'from': st, 'via': via})
     # 4. long random histories
